@@ -116,17 +116,19 @@ GroupChainOK(R, nxt) ==
        /\ \A x \in R : nxt[x] \in R \cup {0} /\ nxt[x] # x
        /\ \A x, y \in R : x # y => nxt[x] # nxt[y]
        /\ Len(Walk(R, nxt, 0, <<>>, Cardinality(R))) = Cardinality(R)       \* the walk from the tail reaches everybody
-RowsInv ==
-    AtRest =>
-        LET P == st.P
-            E == st.E
-        IN
-        /\ UniqP(P) /\ UniqE(E)
-        /\ \A c \in DOMAIN P : P[c].p \in DOMAIN P \cup {0} /\ c \notin AncOf(P, c) /\ P[c].t \in ValidNames
-        /\ \A p \in DOMAIN P \cup {0} : LET R == {c \in DOMAIN P : P[c].p = p} IN GroupChainOK(R, [c \in R |-> P[c].n])
-        /\ \A e \in DOMAIN E : E[e].l \in DOMAIN P /\ E[e].tr \in st.T
-        /\ \A c \in DOMAIN P : LET R == {e \in DOMAIN E : E[e].l = c} IN GroupChainOK(R, [e \in R |-> E[e].n])
-        /\ DOMAIN P \subseteq 1 .. st.sp /\ DOMAIN E \subseteq 1 .. st.se /\ st.T \subseteq 1 .. st.stt
+\* (split so that the induction base below can prune while it enumerates)
+POKof(P, sp) ==
+    /\ UniqP(P)
+    /\ \A c \in DOMAIN P : P[c].p \in DOMAIN P \cup {0} /\ c \notin AncOf(P, c) /\ P[c].t \in ValidNames
+    /\ \A p \in DOMAIN P \cup {0} : LET R == {c \in DOMAIN P : P[c].p = p} IN GroupChainOK(R, [c \in R |-> P[c].n])
+    /\ DOMAIN P \subseteq 1 .. sp
+EOKof(P, T, E, se, stt) ==
+    /\ UniqE(E)
+    /\ \A e \in DOMAIN E : E[e].l \in DOMAIN P /\ E[e].tr \in T
+    /\ \A c \in DOMAIN P : LET R == {e \in DOMAIN E : E[e].l = c} IN GroupChainOK(R, [e \in R |-> E[e].n])
+    /\ DOMAIN E \subseteq 1 .. se /\ T \subseteq 1 .. stt
+RowsOKof(S) == POKof(S.P, S.sp) /\ EOKof(S.P, S.T, S.E, S.se, S.stt)
+RowsInv == AtRest => RowsOKof(st)
 NoTxnAtRest == AtRest => snap = <<>>
 
 (* Refinement: the abstraction of the rows visible between calls takes only Library steps *)
@@ -164,6 +166,27 @@ LibStep ==
     \/ \E c \in aLive : Lib!ClearTracks(c)
     \/ (lastA'.out = "throw" /\ Lib!Failed(CallOf(lastA')))
 Refines == [][LibStep]_<<vis, lastA>>
+
+-----------------------------------------------------------------------------
+(* INDUCTION.  Spec explores the stores reachable from the empty library within MaxCalls calls.  SpecInd starts   *)
+(* from EVERY store within the id bounds that satisfies RowsInv - reachable or not - and makes one call (every     *)
+(* statement, every injected failure).  RowsInv, LibInv and Refines checked on SpecInd with MaxCalls = 1 therefore *)
+(* say: RowsInv is inductive, RowsInv implies the Library invariants of the abstraction, and from any such store   *)
+(* every call is a Library step - i.e. the properties hold after histories of ANY length that hand out at most     *)
+(* MaxP crate ids, MaxT track ids and MaxE entity ids (the bound on the number of calls is gone).                  *)
+InitInd ==
+    /\ \E D \in SUBSET (1 .. MaxP) : \E sp \in 0 .. MaxP :
+       \E P \in [D -> [t : ValidNames, p : 0 .. MaxP, n : 0 .. MaxP]] :
+          /\ POKof(P, sp)
+          /\ \E T \in SUBSET (1 .. MaxT) : \E stt \in 0 .. MaxT : \E DE \in SUBSET (1 .. MaxE) : \E se \in 0 .. MaxE :
+             \E E \in [DE -> [l : D, tr : T, n : 0 .. MaxE]] :
+                /\ EOKof(P, T, E, se, stt)
+                /\ st = [P |-> P, E |-> E, T |-> T, sp |-> sp, se |-> se, stt |-> stt]
+    /\ pre = st
+    /\ pc = <<>> /\ snap = <<>> /\ fail = 0 /\ ncalls = 0
+    /\ cur = Call("init", 0, 0, "", 0, 0)
+    /\ lastA = [op |-> "init", c |-> 0, p |-> 0, n |-> "", t |-> 0, a |-> 0, out |-> "ok", new |-> 0]
+SpecInd == InitInd /\ [][Next]_svars
 
 \* (for reading counterexamples) a faulted or rejected call never leaves rows behind
 FailedCallsAtomic == [][(pc' = <<>> /\ lastA'.out = "throw" /\ ncalls' >= ncalls) => st' = pre']_svars
